@@ -147,8 +147,8 @@ void pbt_warmup() { Variant a(String("x")); Variant b(a); (void)b.toList(); (voi
 void pbt_generate(Rng& r, int size, Case& c) {
   int nops = 2 + (int)r.below((uint64_t)size + 1);
   static const char* names[] = {"null", "bool", "int", "uint", "int64", "uint64", "double", "str", "mklist", "mkarray", "mkmap", "assign", "copy", "clear", "swap",
-                                "mstr", "mlist_app", "mlist_rmfront", "marray_app", "mmap_set", "mmap_rm", "mnested", "mtouch"};
-  static const int w[] = {2, 3, 5, 3, 4, 3, 4, 7, 8, 6, 7, 12, 8, 2, 5, 6, 7, 3, 5, 6, 3, 6, 4};
+                                "mstr", "mlist_app", "mlist_rmfront", "marray_app", "mmap_set", "mmap_rm", "mnested", "mtouch", "assign_elem"};
+  static const int w[] = {2, 3, 5, 3, 4, 3, 4, 7, 8, 6, 7, 12, 8, 2, 5, 6, 7, 3, 5, 6, 3, 6, 4, 6};
   const int N = sizeof w / sizeof *w;
   for (int k = 0; k < nops; ++k) {
     int o = r.weighted(w, N);
@@ -282,6 +282,29 @@ void pbt_run(const Case& cs, Ctx& ctx) {
       if (shared(i)) ctx.label("mutable_access_while_shared");
       switch (M.t) { case Variant::listType: (void)V.toList(); break; case Variant::arrayType: (void)V.toArray(); break; case Variant::mapType: (void)V.toMap(); break; case Variant::stringType: (void)V.toString(); break; default: ctx.count("skipped"); }
       fresh(i);
+    }
+    else if (nm == "assign_elem") {
+      // a variable is given the value of an element nested in variable j's container - j may be the variable itself
+      // (v = v.toList().front(): the assignment releases the container that holds its own source)
+      MV& S = m[j]; Variant& SV = *v[j]; const Variant& CSV = SV;
+      bool mut = (a2 & 2) != 0, back = (a3 & 1) != 0;
+      if ((S.t == Variant::listType || S.t == Variant::arrayType) && !S.items.empty()) {
+        if (mut && shared(j)) ctx.label("mutable_access_while_shared");
+        size_t ix = S.t == Variant::listType ? (back ? S.items.size() - 1 : 0) : (size_t)a3 % S.items.size();
+        MV e = S.items[ix];
+        if (S.t == Variant::listType) { if (mut) { List<Variant>& l = SV.toList(); V = back ? l.back() : l.front(); } else { const List<Variant>& l = CSV.toList(); V = back ? l.back() : l.front(); } }
+        else { if (mut) V = SV.toArray()[ix]; else V = CSV.toArray()[ix]; }
+        if (mut) fresh(j);
+        m[i] = e; group[i] = isContainerOrString(e) ? nextGroup++ : 0;
+        ctx.label(i == j ? "assign_own_element" : "assign_element");
+      } else if (S.t == Variant::mapType && !S.map.empty()) {
+        if (mut && shared(j)) ctx.label("mutable_access_while_shared");
+        MV e = S.map.back().second;
+        if (mut) V = SV.toMap().back(); else { HashMap<String, Variant>::Iterator it = CSV.toMap().end(); --it; V = *it; }   // (HashMap's const back() does not compile for V != T)
+        if (mut) fresh(j);
+        m[i] = e; group[i] = isContainerOrString(e) ? nextGroup++ : 0;
+        ctx.label(i == j ? "assign_own_element" : "assign_element");
+      } else ctx.count("skipped");
     }
     else ctx.count("unknown_op");
     checkAll(nm.c_str());
